@@ -263,7 +263,7 @@ def complete_model(entry, path, m):
             if k not in inq: o[k] = Fraction(v)
     return outs
 
-def numeric_search(entry, path, names, nsamples=40, seed=0, tol=1e-20, extra=()):
+def numeric_search(entry, path, names, nsamples=40, seed=0, tol=1e-20, extra=(), scale_inputs=False):
     """Evaluate the named claims at exact points of the hypothesis variety that satisfy the path condition.
     Returns list of (name, assignment, lval, rval)."""
     import mpmath as mp
@@ -293,6 +293,7 @@ def numeric_search(entry, path, names, nsamples=40, seed=0, tol=1e-20, extra=())
             lv, rv = val[l], val[r]
             if mp.isnan(lv) or mp.isnan(rv): continue
             sc = max(1, abs(lv), abs(rv))
+            if scale_inputs: sc = max([sc] + [abs(tomp(v)) for v in asg.values()])
             bad = (abs(lv - rv) > tol * sc) if k == 'EQ' else ((lv > rv) if k == 'LE' else (lv >= rv))
             if bad: found[nm] = (asg, float(lv), float(rv))
     return found, npc
